@@ -67,6 +67,9 @@ type GenRep struct {
 	// CompactTrun moves common sample duration/size/flags into tfhd defaults (mp4ff OptimizeTfhdTrun), like
 	// segments of other packagers; livesim2 then reads DefaultSampleDuration from tfhd.
 	CompactTrun bool
+	// BothSizes writes the sample size of a one-sample fragment (stpp) into tfhd.default_sample_size as well as
+	// into the trun (both are legal together; the trun value wins for every parser).
+	BothSizes bool
 	// Jitter makes sample durations non-constant (+1/-1 tick on the first two samples of every segment; the
 	// segment durations are unchanged). loadAsset rejects such an audio representation ("does not have (known)
 	// constant sample duration").
@@ -633,6 +636,11 @@ func (r GenRep) MediaSegment(k int) (*mp4.MediaSegment, error) {
 			if err := frag.Moof.Traf.OptimizeTfhdTrun(); err != nil {
 				return nil, err
 			}
+		}
+		if r.BothSizes && len(frag.Moof.Traf.Trun.Samples) > 0 {
+			tfhd := frag.Moof.Traf.Tfhd
+			tfhd.Flags |= 0x000010 // default-sample-size-present
+			tfhd.DefaultSampleSize = frag.Moof.Traf.Trun.Samples[0].Size
 		}
 		seg.AddFragment(frag)
 	}
